@@ -2,9 +2,8 @@
    Only statements; proofs in Proofs/Coherence.v (on top of the per-operation theorems of C05, C08-C12, C14, C19).
    `pool_coh` says every matrix of the pool satisfies Coh: 0 <= major, minor <= usize::MAX, major * minor = number of stored
    elements <= usize::MAX, byte size <= isize::MAX.  `wf_op` says the arguments of an operation are values of their Rust
-   types (usize extents, vectors that exist).  es > 0: element types that occupy memory; for zero-sized element types the
-   same histories are run against the crate with the two zero-sized instrumented types (the model's elements stay
-   distinguishable, which a zero-sized type's are not).
+   types (usize extents, vectors that exist).  es >= 0: every element size, zero-sized types included (for those the
+   model's elements stay distinguishable, which a zero-sized type's are not; coherence does not depend on that).
    PARTIAL with respect to the property text: (a) drop/clone accounting ("dropped exactly once, never duplicated") is not
    part of the functional model — it is observed by the harness ledger on every operation; Permutation is proved where
    elements only move (C05, C10 element swap); (b) the macro arms are excluded here (they expand to covered constructors);
@@ -27,15 +26,26 @@ Proof.
   - vm_compute. reflexivity.
 Qed.
 
+(* the same for a zero-sized element type (es = 0): transpose only swaps the shape, products still have the right extent *)
+Example C01_history_instance_zst :
+  let ops := [WithValue 0 2 3 7; CloneOp 1 0; Transpose 1; SwitchOrder 1; Multiply 2 0 1; Resize 2 1 5] in
+  Forall (wf_op (cfg64 false) 0) ops /\
+  option_map (fun m => (nrows m, ncols m, size m)) (slot (fst (run_ops (cfg64 false) 0 ops empty_pool)) 2) = Some (1, 5, 5).
+Proof.
+  split.
+  - repeat constructor; cbn; unfold is_usize; cbn; try lia.
+  - vm_compute. reflexivity.
+Qed.
+
 (* one step: every operation keeps every matrix of the pool coherent *)
 Theorem C01_step_coh : forall (c : cfg) (es : Z) (p : pool) (o : op),
-  wf c -> 0 < es -> pool_coh c es p -> wf_op c es o -> pool_coh c es (fst (step c es p o)).
+  wf c -> 0 <= es -> pool_coh c es p -> wf_op c es o -> pool_coh c es (fst (step c es p o)).
 Proof. intros c es p o Hwf Hes. exact (step_coh c Hwf es Hes p o). Qed.
 Print Assumptions C01_step_coh.
 
 (* every reachable state: after any sequence of operations from the empty pool *)
 Theorem C01_history_coh : forall (c : cfg) (es : Z) (ops : list op),
-  wf c -> 0 < es -> Forall (wf_op c es) ops -> pool_coh c es (fst (run_ops c es ops empty_pool)).
+  wf c -> 0 <= es -> Forall (wf_op c es) ops -> pool_coh c es (fst (run_ops c es ops empty_pool)).
 Proof. intros c es ops Hwf Hes. exact (history_coh c Hwf es Hes ops). Qed.
 Print Assumptions C01_history_coh.
 
